@@ -93,13 +93,69 @@ func stressRun(base int, seed int64, par, ncalls int) []SEv {
 	return log
 }
 
+// slowRun is one schedule in which the coalesced function stays in flight for seconds (a slow identity
+// provider) while identical calls keep arriving: early, late, and very late. "At most one execution per key is
+// in flight at any moment" has no time limit.
+func slowRun(base int, seed int64) []SEv {
+	g := &singleflight.Group{}
+	var mu sync.Mutex
+	var log []SEv
+	add := func(e SEv) {
+		mu.Lock()
+		e.Case = base + len(log)
+		log = append(log, e)
+		mu.Unlock()
+	}
+	add(SEv{Ev: "reset"})
+	rnd := rand.New(rand.NewSource(seed))
+	hold := 2300*time.Millisecond + time.Duration(rnd.Intn(300))*time.Millisecond
+	arrive := []time.Duration{0, time.Duration(50+rnd.Intn(400)) * time.Millisecond, time.Duration(1200+rnd.Intn(300)) * time.Millisecond,
+		hold - time.Duration(60+rnd.Intn(100))*time.Millisecond}
+	ep, subj := "V", "a"
+	var wg sync.WaitGroup
+	for i, at := range arrive {
+		wg.Add(1)
+		go func(id int, at time.Duration) {
+			defer wg.Done()
+			time.Sleep(at)
+			add(SEv{Ev: "invoke", C: id, Ep: ep, Subj: subj})
+			v, n, err := g.Do(ep+"/"+subj, func() (interface{}, error) {
+				add(SEv{Ev: "fnstart", C: id, Ep: ep, Subj: subj})
+				if id == 1 {
+					time.Sleep(hold)
+				}
+				add(SEv{Ev: "fnend", C: id, Ep: ep, Subj: subj, Ok: true})
+				return id, nil
+			})
+			e := SEv{Ev: "ret", C: id, Ep: ep, Subj: subj, Count: n}
+			if err == nil {
+				e.Val, e.Ok = v.(int), true
+			}
+			add(e)
+		}(i+1, at)
+	}
+	wg.Wait()
+	mu.Lock()
+	defer mu.Unlock()
+	log = append(log, SEv{Ev: "final", Case: base + len(log)})
+	return log
+}
+
 // RunStress runs n free-running schedules.
 func RunStress(out string, seed int64, n, workers int) (*Summary, error) {
 	if n == 0 {
 		n = 40
 	}
-	res := make([][]SEv, n)
+	const nslow = 3
+	res := make([][]SEv, n+nslow)
 	var wg sync.WaitGroup
+	for k := 0; k < nslow; k++ {
+		wg.Add(1)
+		go func(k int) {
+			defer wg.Done()
+			res[n+k] = slowRun((n+k)*100000, seed*7919+int64(k))
+		}(k)
+	}
 	sem := make(chan struct{}, workers)
 	for i := 0; i < n; i++ {
 		wg.Add(1)
@@ -118,7 +174,7 @@ func RunStress(out string, seed int64, n, workers int) (*Summary, error) {
 	defer of.Close()
 	bw := bufio.NewWriter(of)
 	enc := json.NewEncoder(bw)
-	sum := &Summary{Driver: "sf-stress", Executed: n, Distinct: n, Extra: map[string]interface{}{}}
+	sum := &Summary{Driver: "sf-stress", Executed: n + nslow, Distinct: n + nslow, Extra: map[string]interface{}{"slow_runs": nslow}}
 	joins := 0
 	for _, ls := range res {
 		for _, l := range ls {
